@@ -345,6 +345,11 @@ func (r *runner) runWith(family string, threads []string, choose func(i int, en 
 // denyHoldsUntilItsExpiry: session with a short token (allow entry expiring at t0+2), deny until t0+5;
 // at t0+3.4 (several prunes after the short token's expiry) the deny must still be in force, at t0+6.6
 // (after the deny's own expiry and a prune) it must have lapsed.
+// pruneEvery: the tidy period of the relay under test. Several seconds on purpose: a tidy that looks ahead by (a part
+// of) its own period drops an entry before the expiry the deny request stated, which only shows when the period is
+// longer than the clock's one-second grain.
+const pruneEvery = 3 * time.Second
+
 func (r *runner) denyHoldsUntilItsExpiry() []lib.Violation {
 	var out []lib.Violation
 	bid := fmt.Sprintf("timed-%d", os.Getpid())
@@ -378,17 +383,103 @@ func (r *runner) denyHoldsUntilItsExpiry() []lib.Violation {
 	if st2 == 200 || !has(dl, bid) {
 		bad("deny-lapsed-before-its-expiry", "the deny was given expiry t0+5, no allow was requested, yet at t0+3.4 the booking is accepted again / off the deny list")
 	}
-	time.Sleep(time.Until(time.Unix(t0+6, 600e6)))
+	// the entry goes at the first tidy whose clock reads t0+6 or later: a tidy runs every 3 s, so by t0+9 (+ slack)
+	time.Sleep(time.Until(time.Unix(t0+9, 300e6)))
 	st3, _, _ := r.rl.Session(topic, r.bearer(bid, t0+600))
-	for i := 0; st3 != 200 && i < 8; i++ { // generous: give a stalled prune loop up to 2.4 s more
+	for i := 0; st3 != 200 && i < 10; i++ { // generous: give a stalled prune loop up to 3 s more
 		time.Sleep(300 * time.Millisecond)
 		st3, _, _ = r.rl.Session(topic, r.bearer(bid, t0+600))
 	}
-	note("t0+6.6 (or up to 2.4 s later) session with a long token -> %d", st3)
+	note("t0+9.3 (or up to 3 s later) session with a long token -> %d", st3)
 	if st3 != 200 {
-		bad("deny-outlives-its-expiry", "the deny's own expiry t0+5 has passed (and the prune loop runs every 250 ms) but the booking is still refused at t0+6.6")
+		bad("deny-outlives-its-expiry", "the deny's own expiry t0+5 has passed (and the prune loop runs every 3 s) but the booking is still refused at t0+9.3")
 	}
 	r.rl.Allow(bid, time.Now().Unix()+1, r.admin)
+	return out
+}
+
+// staggeredExpiries: bookings denied until t0+4, t0+5, ... t0+10 on the relay as relay.Relay wires it (tidy every 3 s,
+// real time). The deny list is read every 150 ms: an entry must be listed as long as its own expiry is at least one
+// whole second ahead of the reading, whenever the tidy ticks; and it must be gone a tidy period (plus slack) after.
+func (r *runner) staggeredExpiries() []lib.Violation {
+	var out []lib.Violation
+	for time.Now().Nanosecond() > 100e6 {
+		time.Sleep(5 * time.Millisecond)
+	}
+	t0 := time.Now().Unix()
+	type ent struct {
+		bid string
+		exp int64
+	}
+	var es []ent
+	for i := int64(0); i <= 6; i++ {
+		e := ent{fmt.Sprintf("stag-%d-%d", os.Getpid(), i), t0 + 4 + i}
+		if r.rl.Deny(e.bid, e.exp, r.admin).Status == 204 {
+			es = append(es, e)
+		}
+	}
+	reported := map[string]bool{}
+	for time.Now().Before(time.Unix(t0+10, 0)) {
+		before := time.Now()
+		dl, st := r.rl.BidList("deny", r.admin)
+		after := time.Now()
+		if st == 200 && after.Sub(before) < 400*time.Millisecond {
+			for _, e := range es {
+				if e.exp >= after.Unix()+1 && !has(dl, e.bid) && !reported[e.bid] {
+					reported[e.bid] = true
+					out = append(out, lib.Violation{Clause: "deny-lapsed-before-its-expiry", Case: -1,
+						Detail: fmt.Sprintf("a booking was denied until t0+%d and never allowed; the deny list read at t0+%.2f s (tidy period %v) no longer names it: %.2f s before the expiry its deny request stated",
+							e.exp-t0, after.Sub(time.Unix(t0, 0)).Seconds(), pruneEvery, time.Unix(e.exp, 0).Sub(after).Seconds()),
+						Replay: map[string]interface{}{"denied_until": e.exp - t0, "read_at": after.Sub(time.Unix(t0, 0)).Seconds(), "prune_every_s": pruneEvery.Seconds()},
+						Key:    "deny-lapsed-before-its-expiry:staggered"})
+				}
+			}
+		}
+		time.Sleep(150 * time.Millisecond)
+	}
+	for _, e := range es {
+		r.rl.Allow(e.bid, time.Now().Unix()+1, r.admin)
+	}
+	return out
+}
+
+// crowdedDenyList: one booking denied for an hour, then tens of thousands of OTHER bookings denied for a day (past any
+// bound a store might put on its lists): the first cancellation is still in force - a deny is lifted only by an allow
+// for that booking or by its own expiry, never by other bookings being cancelled.
+func (r *runner) crowdedDenyList(n int) []lib.Violation {
+	var out []lib.Violation
+	now := time.Now().Unix()
+	first := fmt.Sprintf("crowd-first-%d", os.Getpid())
+	topic := "t-" + first
+	if r.rl.Deny(first, now+3600, r.admin).Status != 204 {
+		return out
+	}
+	var wg sync.WaitGroup
+	var failed int64
+	workers := 16
+	for w := 0; w < workers; w++ {
+		wg.Add(1)
+		go func(w int) {
+			defer wg.Done()
+			for i := w; i < n; i += workers {
+				if r.rl.Deny(fmt.Sprintf("crowd-%d-%d", os.Getpid(), i), now+86400, r.admin).Status != 204 {
+					atomic.AddInt64(&failed, 1)
+				}
+			}
+		}(w)
+	}
+	wg.Wait()
+	if failed > int64(n/100) {
+		return out // the population could not be built (loaded machine): not judged
+	}
+	st, _, _ := r.rl.Session(topic, r.bearer2(topic, first, now+600))
+	dl, lst := r.rl.BidList("deny", r.admin)
+	if st == 200 || (lst == 200 && !has(dl, first)) {
+		out = append(out, lib.Violation{Clause: "deny-erased", Case: -1,
+			Detail: fmt.Sprintf("a booking was denied for an hour (204); then %d other bookings were denied for a day; no allow was sent, yet a session request for the first booking answers %d and the deny list (%d entries) names it: %v",
+				n, st, len(dl), has(dl, first)),
+			Replay: map[string]interface{}{"other_bookings_denied": n, "session_status": st, "deny_list_len": len(dl)}, Key: "deny-erased:crowded-deny-list"})
+	}
 	return out
 }
 
@@ -793,7 +884,7 @@ func main() {
 	res := lib.NewResult("C07", a.Seed, a.Tier)
 	c := newCtl()
 	verifhook.SetController(c.point)
-	rl := lib.StartRelay(lib.RelayOpts{PruneEvery: 250 * time.Millisecond})
+	rl := lib.StartRelay(lib.RelayOpts{PruneEvery: pruneEvery})
 	r := &runner{rl: rl, c: c, admin: rl.AdminBearer("relay:admin"), stats: rl.AdminBearer("relay:stats")}
 
 	var cases []Case
@@ -822,6 +913,8 @@ func main() {
 		}()
 		// "… until the expiry given in the deny request": a timed history beside the enumeration
 		timed := make(chan []lib.Violation, 1)
+		stag := make(chan []lib.Violation, 1)
+		go func() { stag <- r.staggeredExpiries() }()
 		go func() {
 			v := append(r.denyHoldsUntilItsExpiry(), r.denyAllowDenyAgain()...)
 			v = append(v, r.oddBookingIDs()...)
@@ -852,11 +945,20 @@ func main() {
 		for _, v := range <-timed {
 			res.Violate(v)
 		}
+		for _, v := range <-stag {
+			res.Violate(v)
+		}
 		res.Count("timed:deny-expiry-history")
+		res.Count("timed:staggered-expiries")
 		dl, _ := rl.BidList("deny", r.admin)
 		if !r.listed("bystander-conn") || has(dl, byBid) {
 			res.Violate(lib.Violation{Clause: "other-booking-affected", Case: -1, Detail: "a connection on a booking that no request named was closed or denied during the run", Replay: map[string]string{"bystander": byBid}, Key: "other-booking-affected"})
 		}
+		// last, because it leaves a very long deny list behind
+		for _, v := range r.crowdedDenyList(a.Pick(70000, 140000)) {
+			res.Violate(v)
+		}
+		res.Count("population:crowded-deny-list")
 	}
 	coq := []string{}
 	for i, cs := range cases {
